@@ -58,8 +58,44 @@ def thermo_AX():
     return t[1]
 
 
+def thermo_PR():
+    """Peng-Robinson EOS package on the same compiled chemicals; its solver scratch `mixture._free_energy_args` is hidden state shared by
+    every stream of the package: owned here (emptied at build, part of `canon`, emptied around every reference evaluation)."""
+    A = fx.thermo('A')
+    t = _AX.get(('PR', id(A)))
+    if t is None or t[0] is not A:
+        tmo = fx.tmo()
+        t = _AX[('PR', id(A))] = (A, tmo.Thermo(A.chemicals, mixture=tmo.PRMixture.from_chemicals(A.chemicals)))
+    return t[1]
+
+
+class clean_scratch:
+    """The reference twin must be a CLEAN evaluation of the concrete state, not of whatever an earlier solve left in the mixture object."""
+    def __init__(self, thermo): self.fea = getattr(thermo.mixture, '_free_energy_args', None)
+    def __enter__(self):
+        if self.fea is not None:
+            self.saved = dict(self.fea); self.fea.clear()
+    def __exit__(self, *a):
+        if self.fea is not None:
+            self.fea.clear(); self.fea.update(self.saved)
+
+
+def _fea_digest(thermo):
+    fea = getattr(thermo.mixture, '_free_energy_args', None)
+    if not fea: return ()
+    out = []
+    for ph, val in sorted(fea.items(), key=lambda kv: str(kv[0])):
+        try:
+            eos, eos_mol, kw = val
+            out.append((str(ph), fx.r12(eos_mol), fx.r12(getattr(eos, 'T', 0.0) or 0.0), fx.r12(getattr(eos, 'P', 0.0) or 0.0),
+                        tuple(fx.r12(z) for z in (getattr(eos, 'zs', None) or ()))))
+        except Exception:
+            out.append((str(ph), repr(type(val))))
+    return tuple(out)
+
+
 class St:
-    __slots__ = ('s', 'p', 'k', 'v', 'c', 'aux', 'thermos', 'cfg', 'TA', 'TB', 'last')
+    __slots__ = ('s', 'p', 'k', 'v', 'c', 'aux', 'thermos', 'cfg', 'TA', 'TB', 'PA', 'PB', 'last')
 
 
 def _is_multi(x):
@@ -145,7 +181,7 @@ class C14(System):
         self.only = only
 
     def warm(self):
-        fx.tmo(); fx.thermo('A'); fx.custom_thermo(A2_IDS); thermo_AX()
+        fx.tmo(); fx.thermo('A'); fx.custom_thermo(A2_IDS); thermo_AX(); thermo_PR()
     def reset_globals(self): fx.reset_globals()
     def depth(self, tier): return self._dq if tier == 'quick' else self._dt
     def time_cap(self, tier): return self._tq if tier == 'quick' else self._tt
@@ -154,7 +190,7 @@ class C14(System):
 
     def configs(self, tier, seed):
         cfgs = [(k, e, w) for k in self.kinds for e in self.extras for w in self.warms
-                if not (e == 'view' and k in ('l', 'l1', 'g'))]
+                if not (e == 'view' and k in ('l', 'l1', 'g', 'gX', 'gP'))]
         if self.only is not None: cfgs = [c for c in cfgs if c in self.only]
         n = seed % len(cfgs)
         return cfgs[n:] + cfgs[:n]
@@ -167,6 +203,10 @@ class C14(System):
         st = St(); st.cfg = config; st.thermos = (A, A2, thermo_AX())
         st.p = st.k = st.v = st.c = None
         st.last = None
+        st.PA, st.PB = 101325.0, 5e5
+        for th in (thermo_PR(),):
+            fea = getattr(th.mixture, '_free_energy_args', None)
+            if fea is not None: fea.clear()
         if kind == 'l':
             st.TA, st.TB = 298.15, 350.0
             s = tmo.Stream(None, Water=1.0, Ethanol=2.5, phase='l', T=st.TA, thermo=A)
@@ -177,6 +217,11 @@ class C14(System):
         elif kind == 'g':
             st.TA, st.TB = 400.0, 450.0
             s = tmo.Stream(None, Water=1.0, Ethanol=2.5, phase='g', T=st.TA, thermo=A)
+        elif kind in ('gX', 'gP'):
+            # gas streams that START on a package whose enthalpy / entropy depend on pressure: AX (excess energies) or Peng-Robinson
+            st.TA, st.TB = 450.0, 500.0
+            st.PB = 2e5
+            s = tmo.Stream(None, Water=1.0, Ethanol=2.5, phase='g', T=st.TA, thermo=thermo_AX() if kind == 'gX' else thermo_PR())
         elif kind == 'm':
             st.TA, st.TB = 350.0, 360.0
             s = tmo.MultiStream(None, T=st.TA, phases=('g', 'l'), l=[('Water', 1.0), ('Ethanol', 0.5)], g=[('Ethanol', 2.0)], thermo=A)
@@ -227,6 +272,7 @@ class C14(System):
             if _is_multi(x) and hasattr(x, '_streams'):
                 views = tuple((ph, alias(vw), alias(vw._imol.data), _memo_digest(vw, alias)) for ph, vw in sorted(x._streams.items()))
             out.append((d, _memo_digest(x, alias), views, alias(x._thermo)))
+        out.append(_fea_digest(thermo_PR()))
         return tuple(out)
 
     # ---- actions ---------------------------------------------------------------------------------------------
@@ -277,8 +323,12 @@ class C14(System):
             if st.k is not None: acts += [('T', 'k', TA), ('T', 'k', TB)]
             if st.v is not None: acts += [('flow', 'v', 1.0), ('flow', 'v', 3.0)]
             return acts
-        acts += [('P', 's', 5e5), ('P', 's', 101325.0)]
+        acts += [('P', 's', st.PB), ('P', 's', st.PA)]
         acts.append(('addmol', 1.0))
+        if st.cfg[0] in ('gX', 'gP') and not multi:
+            acts += [('setS', 'A'), ('setS', 'B')]        # entropy specification: S := the clean entropy of this composition at TA / TB
+        if not multi and s.phase != st.aux.phase and s.chemicals is st.aux.chemicals and st.aux._thermal_condition is not s._thermal_condition:
+            acts.append(('from_streams',))               # MultiStream.from_streams([aux, s]) re-points s to aux's thermal condition
         acts.append(('F_mol', 7.0))
         acts.append(('set_flow', 2.0, 'kg/hr', 'Methanol'))
         acts += [('mix', False), ('mix', True)]
@@ -311,7 +361,8 @@ class C14(System):
         cache = x._property_cache
         pre = set(cache)
         name = MEMO_NAME.get(q)
-        exp = _read(_fresh(x), q)
+        with clean_scratch(x._thermo):
+            exp = _read(_fresh(x), q)
         got = _read(x, q)
         post = set(cache)
         if name in pre and pre <= post: how = 'hit'
@@ -352,7 +403,7 @@ class C14(System):
                 except Exception as e: raise Rejected(f'temporary_phase:{type(e).__name__}', cut=True)
             else:
                 if what == 'T': kw = dict(T=st.TB if s.T != st.TB else st.TA)
-                elif what == 'P': kw = dict(P=5e5 if s.P != 5e5 else 101325.0)
+                elif what == 'P': kw = dict(P=st.PB if s.P != st.PB else st.PA)
                 else:
                     t = _truth(s)
                     kw = dict(flow=2.0 * (np.array(t[2]) if t[0] == 'M' else t[2]))
@@ -441,6 +492,17 @@ class C14(System):
             s.imol['l', IDs] = gs
             s.imol['g', IDs] = lq
             return 'ok'
+        if op == 'setS':
+            T = st.TA if a[1] == 'A' else st.TB
+            with clean_scratch(s._thermo):
+                t = _truth(s)
+                twin = tmo.Stream(None, flow=t[2], phase=t[1], T=T, P=t[4], thermo=s._thermo)
+                target = twin.S
+            s.S = target
+            return 'ok'
+        if op == 'from_streams':
+            tmo.MultiStream.from_streams([st.aux, s])
+            return 'ok'
         if op == 'addmol':
             if multi:
                 s.imol['l', 'Ethanol'] += a[1]
@@ -499,15 +561,15 @@ class C14(System):
         return repr((a[0], a[1] if a[0] in ('r', 'probe', 'T', 'flow') else None, obs, type(st.s).__name__, self._sat(st)))[:300]
 
 
-_CORE = (('l', 'none', False), ('l1', 'none', False), ('g', 'none', False), ('m', 'none', False), ('mc', 'none', False), ('m1', 'none', False),
+_CORE = (('l', 'none', False), ('l1', 'none', False), ('g', 'none', False), ('gX', 'none', False), ('gP', 'none', False), ('m', 'none', False), ('mc', 'none', False), ('m1', 'none', False),
          ('l', 'proxy', True), ('m', 'proxy', True), ('l', 'link', True), ('mc', 'link', True), ('m', 'view', True))
 _DEEP = (('l', 'none', False), ('l1', 'none', False), ('l', 'proxy', False), ('l', 'link', False), ('m', 'none', False), ('m', 'proxy', False),
          ('m', 'link', False), ('m', 'view', False), ('m1', 'none', False), ('m1', 'view', False))
 SYSTEMS = [
     # every mutator x every read (x every satellite) from all cold and warm starts
-    C14('c14.wide', 'full', 2, 3, ('l', 'l1', 'g', 'm', 'mc', 'm1'), ('none', 'proxy', 'link', 'view'), tcap_t=900),
+    C14('c14.wide', 'full', 2, 3, ('l', 'l1', 'g', 'gX', 'gP', 'm', 'mc', 'm1'), ('none', 'proxy', 'link', 'view'), tcap_t=900),
     # the same alphabet, one level deeper, from the core starts (satellites can also be created by actions)
-    C14('c14.full', 'full', 3, 4, ('l', 'l1', 'g', 'm', 'mc', 'm1'), ('none', 'proxy', 'link', 'view'), only=_CORE, tcap_q=150, tcap_t=900),
+    C14('c14.full', 'full', 3, 4, ('l', 'l1', 'g', 'gX', 'gP', 'm', 'mc', 'm1'), ('none', 'proxy', 'link', 'view'), only=_CORE, tcap_q=150, tcap_t=900),
     # reduced alphabet (restoring mutations, whole-phase moves, reads through every object), deep histories
     C14('c14.deep', 'deep', 4, 7, ('l', 'l1', 'm', 'm1'), ('none', 'proxy', 'link', 'view'), warm=(False,), only=_DEEP, tcap_q=120, tcap_t=600),
 ]
